@@ -8,7 +8,8 @@ use identity_document::service::Service;
 use identity_verification::{MethodData, MethodRef, MethodRelationship, MethodScope, VerificationMethod};
 use serde_json::{json, Value};
 
-pub const DIDS: [&str; 3] = ["", "did:example:self", "did:example:other"];
+/// IOTA DIDs, so that the same histories also run on an IotaDocument (the wrapper in identity_iota_core)
+pub const DIDS: [&str; 3] = ["", "did:iota:0x1111111111111111111111111111111111111111111111111111111111111111", "did:iota:0x2222222222222222222222222222222222222222222222222222222222222222"];
 pub const RESTS: [&str; 3] = ["", "/p1", "?q=1"];
 #[derive(Clone, Copy, Debug, PartialEq, Eq)]
 pub struct U { pub d: i64, pub r: i64, pub f: i64 }
@@ -122,6 +123,9 @@ pub fn exec(case: &[i64]) -> Outcome {
   match &via_builder { None => return Outcome::new(vec![1]).class("start-routes-disagree").fail("DocumentBuilder::build rejects a document that deserialisation accepts"), Some(b) => if *b != doc { return Outcome::new(vec![1]).class("start-routes-disagree").fail("builder and deserialisation give different documents"); } }
   let mut obs = vec![1]; let mut why: Option<String> = None; let mut known = false;
   after(&doc, &queries, &mut obs, &mut why, &mut known);
+  // the IotaDocument wrappers must track the core document exactly: same histories on a shadow IotaDocument
+  let mut shadow: Option<identity_iota_core::IotaDocument> = identity_iota_core::IotaDocument::from_json_value(json!({"doc": j, "meta": {}})).ok();
+  if shadow.is_none() { why.get_or_insert("IotaDocument rejects a document body that CoreDocument accepts (id and controllers are IOTA DIDs)".into()); }
   let (mut refused, mut changed) = (false, false);
   while !v.is_empty() {
     let t = take1(&mut v).unwrap();
@@ -130,24 +134,37 @@ pub fn exec(case: &[i64]) -> Outcome {
     match t {
       0 => { let u = take_u(&mut v); let x = take1(&mut v).unwrap(); let s = take1(&mut v).unwrap();
              let m: VerificationMethod = serde_json::from_value(meth_json(u, x)).unwrap();
+             if let Some(sh) = shadow.as_mut() { let r2 = sh.insert_method(m.clone(), scope_of(s)); let r1 = doc.clone().insert_method(m.clone(), scope_of(s)); if r1.is_ok() != r2.is_ok() { why.get_or_insert("IotaDocument::insert_method answers differently from CoreDocument::insert_method".into()); } }
              match doc.insert_method(m, scope_of(s)) {
                Ok(()) => { obs.push(0); if doc.resolve_method(ustr(u).as_str(), Some(scope_of(s))).map(data_of) != Some(x) && !ambiguous(&view(&doc)) { why.get_or_insert("inserted method does not resolve in its scope".into()); } }
                Err(_) => { obs.push(1); was_refused = true; } } }
       1 => { let u = take_u(&mut v); let id = DIDUrl::parse(ustr(u)).unwrap();
+             if let Some(sh) = shadow.as_mut() { let r2 = if u.f % 2 == 0 { sh.remove_method_and_scope(&id).map(|x| x.0) } else { sh.remove_method(&id) }; let r1 = doc.clone().remove_method(&id); if r1 != r2 { why.get_or_insert("IotaDocument::remove_method answers differently from CoreDocument::remove_method".into()); } }
              match doc.remove_method_and_scope(&id) {
                Some((m, s)) => { obs.extend([1, data_of(&m), (0..6).find(|z| scope_of(*z) == s).unwrap()]); let vw = view(&doc); if vw.vm.iter().any(|e| e.0 == u) || vw.rels.iter().flatten().any(|e| e.1 == u) { why.get_or_insert("removed method id still present in the document".into()); } }
                None => { obs.push(0); let vb = view(&before); was_refused = !(vb.vm.iter().any(|e| e.0 == u) || vb.rels.iter().flatten().any(|e| e.1 == u)); } } }
       2 => { let u = take_u(&mut v); let x = take1(&mut v).unwrap(); let s: Service = serde_json::from_value(svc_json(u, x)).unwrap();
+             if let Some(sh) = shadow.as_mut() { let r2 = sh.insert_service(s.clone()); let r1 = doc.clone().insert_service(s.clone()); if r1.is_ok() != r2.is_ok() { why.get_or_insert("IotaDocument::insert_service answers differently from CoreDocument::insert_service".into()); } }
              match doc.insert_service(s) { Ok(()) => obs.push(0), Err(_) => { obs.push(1); was_refused = true; } } }
       3 => { let u = take_u(&mut v); let id = DIDUrl::parse(ustr(u)).unwrap();
+             if let Some(sh) = shadow.as_mut() { let r2 = sh.remove_service(&id); let r1 = doc.clone().remove_service(&id); if r1 != r2 { why.get_or_insert("IotaDocument::remove_service answers differently from CoreDocument::remove_service".into()); } }
              match doc.remove_service(&id) { Some(s) => obs.extend([1, sdata_of(&s)]), None => { obs.push(0); was_refused = true; } } }
       _ => { let d = take1(&mut v).unwrap(); let f = take1(&mut v).unwrap(); let rl = take1(&mut v).unwrap(); let q = qstr(d, f);
+             if let Some(sh) = shadow.as_mut() { let r2 = if t == 4 { sh.attach_method_relationship(q.as_str(), RELS[(rl - 1) as usize]) } else { sh.detach_method_relationship(q.as_str(), RELS[(rl - 1) as usize]) };
+               let mut dc = doc.clone(); let r1 = if t == 4 { dc.attach_method_relationship(q.as_str(), RELS[(rl - 1) as usize]) } else { dc.detach_method_relationship(q.as_str(), RELS[(rl - 1) as usize]) };
+               if r1.ok() != r2.ok() { why.get_or_insert("IotaDocument::attach / detach_method_relationship answers differently from CoreDocument's".into()); } }
              let r = if t == 4 { doc.attach_method_relationship(q.as_str(), RELS[(rl - 1) as usize]) } else { doc.detach_method_relationship(q.as_str(), RELS[(rl - 1) as usize]) };
              match r { Ok(true) => obs.push(0), Ok(false) => { obs.push(2); was_refused = true; }
                        Err(identity_document::Error::InvalidMethodEmbedded) => { obs.push(3); was_refused = true; } Err(_) => { obs.push(1); was_refused = true; } } }
     }
     if was_refused { refused = true; if doc != before { why.get_or_insert("refused operation changed the document".into()); } } else { changed = true; }
     after(&doc, &queries, &mut obs, &mut why, &mut known);
+    if let Some(sh) = shadow.as_ref() {
+      if sh.core_document() != &doc { why.get_or_insert("after the same history the IotaDocument's core document differs from the CoreDocument".into()); }
+      for (d, f) in queries.iter().take(3) { let q = qstr(*d, *f); for sc in [None, Some(scope_of(0)), Some(scope_of(1)), Some(scope_of(5))] { if sh.resolve_method(q.as_str(), sc) != doc.resolve_method(q.as_str(), sc) { why.get_or_insert("IotaDocument::resolve_method differs from CoreDocument::resolve_method".into()); } }
+        if sh.resolve_service(q.as_str()) != doc.resolve_service(q.as_str()) { why.get_or_insert("IotaDocument::resolve_service differs from CoreDocument::resolve_service".into()); } }
+      if sh.methods(None).len() != doc.methods(None).len() { why.get_or_insert("IotaDocument::methods differs from CoreDocument::methods".into()); }
+    }
   }
   let mut o = Outcome::new(obs).class("history");
   if !(refused && changed) { o = o.trivial(); }
